@@ -92,7 +92,7 @@ theorem heightL_cons (x : DNode) (l : List DNode) : heightL (x :: l) = Nat.max x
 theorem height_inner (s : Nat) (f : Flags) (m : List Meta) (ks : List DNode) :
     (DNode.inner s f m ks).height = heightL ks + 1 := rfl
 
-theorem height_pos (x : DNode) : 0 < x.height := by cases x <;> simp [DNode.height]
+theorem height_pos13 (x : DNode) : 0 < x.height := by cases x <;> simp [DNode.height]
 
 theorem heightL_le_of_sublist {l l' : List DNode} (h : ∀ x ∈ l, x ∈ l') : heightL l ≤ heightL l' := by
   induction l with
@@ -169,7 +169,7 @@ abbrev look (S : Schema) (l : List DNode) (q : DNode) : Option DNode := l.find? 
 
 theorem look_none_iff_findIdx {S : Schema} {l : List DNode} {q : DNode} :
     look S l q = none ↔ findForApply S l q = none := by
-  rw [findForApply_eq]
+  rw [findForApply_eq13]
   simp [look, List.find?_eq_none, List.findIdx?_eq_none_iff]
 
 theorem look_some_findIdx {S : Schema} (K : KeyOrder S) {l : List DNode} (hg : goodL S l = true) {q x : DNode}
@@ -180,7 +180,7 @@ theorem look_some_findIdx {S : Schema} (K : KeyOrder S) {l : List DNode} (hg : g
   obtain ⟨i, hi, hix⟩ := List.getElem_of_mem hx
   have hget : l[i]? = some x := by simp [hi, hix]
   have := (ordOf S K).find?_same_unique (goodL_allDom K hg) (goodL_sorted K hg) hq hget hm
-  exact ⟨i, by rw [findForApply_eq]; exact this.2, hget, hm⟩
+  exact ⟨i, by rw [findForApply_eq13]; exact this.2, hget, hm⟩
 
 /-- create: the new sibling list after `lyd_insert_node` of a new instance -/
 theorem good_insertNode {S : Schema} (K : KeyOrder S) {l : List DNode} (hg : goodL S l = true) {n : DNode}
